@@ -175,12 +175,12 @@ TIOTruncate ==
    /\ Expect(E.off >= (w.hwm + 1) * opt.ps \/ E.off >= fs.len, "truncate below what the transaction needs")
    /\ Expect(SizeOK(E.off), <<"file grown beyond MaxSize (C18)", opt.maxSize>>)
    /\ IF E.fail THEN /\ w' = [w EXCEPT !.failed = TRUE] /\ fs' = fs
-      ELSE /\ w' = [w EXCEPT !.grown = TRUE] /\ fs' = [fs EXCEPT !.len = Max(fs.len, E.off)]
+      ELSE /\ w' = [w EXCEPT !.grown = TRUE] /\ fs' = [fs EXCEPT !.len = Max(fs.len, E.off), !.unsynced = @ \cup {E.idx}]
    /\ UNCHANGED <<free, pend, readers, tree, flp, flc, vhwm, cur, opt>>
 TIOFsync == /\ IsEvent("IO") /\ E.kind = "fsync"
             /\ Expect(w.open /\ w.grown, "file sync without a preceding truncate")
             /\ w' = IF E.fail THEN [w EXCEPT !.failed = TRUE] ELSE w
-            /\ fs' = fs
+            /\ fs' = IF E.fail THEN fs ELSE [fs EXCEPT !.unsynced = {}]
             /\ UNCHANGED <<free, pend, readers, tree, flp, flc, vhwm, cur, opt>>
 TIOWriteData ==
    /\ IsEvent("IO") /\ w.open /\ E.kind = "write" /\ E.off >= 2 * opt.ps
